@@ -1208,7 +1208,7 @@ impl<'de> de::Deserializer<'de> for &mut Deserializer<'de> {
                         self.wire_type
                     )));
                 }
-                let value = visitor.visit_seq(Compound::new(
+                let mut compound = Compound::new(
                     self,
                     Style::Struct {
                         expect,
@@ -1216,7 +1216,11 @@ impl<'de> de::Deserializer<'de> for &mut Deserializer<'de> {
                         expect_idx: 0,
                         wire_idx: 0,
                     },
-                ))?;
+                );
+                let value = visitor.visit_seq(&mut compound)?;
+                // A tuple visitor stops after its own arity; the wire tuple may be
+                // longer (a subtype), so skip the fields that were not asked for.
+                compound.skip_remaining_wire_fields()?;
                 Ok(value)
             }
             _ => check!(false),
@@ -1565,6 +1569,26 @@ impl Style {
 impl<'a, 'de> Compound<'a, 'de> {
     fn new(de: &'a mut Deserializer<'de>, style: Style) -> Self {
         Compound { de, style }
+    }
+    fn skip_remaining_wire_fields(&mut self) -> Result<()> {
+        if let Style::Struct {
+            ref wire,
+            ref mut wire_idx,
+            ..
+        } = self.style
+        {
+            let wire_fields = match wire.as_ref() {
+                TypeInner::Record(fields) => fields,
+                _ => unreachable!(),
+            };
+            while let Some(field) = wire_fields.get(*wire_idx) {
+                *wire_idx += 1;
+                self.de.add_cost(3)?;
+                self.de.wire_type = field.ty.clone();
+                de::Deserializer::deserialize_ignored_any(&mut *self.de, de::IgnoredAny)?;
+            }
+        }
+        Ok(())
     }
 }
 
